@@ -156,6 +156,88 @@ def check(run):
         elif kind == "error" and not err.strip():
             wits.append({"kind": "command line `%s` failed (exit %s) without any message" % (" ".join(args), rc), "files": files, "program": "".join(files.values()), "entry": "goml CLI"})
     shutil.rmtree(croot, ignore_errors=True)
+    # ---- S4: damaged interface / core artifacts offered to check, build and link ------------------------------
+    import copy
+
+    lib_src = "package Lib\nstruct LS { v: int32 }\nenum LE { LX, LY(int32) }\ntrait LT { fn show(Self) -> string; }\nimpl LT for LS { fn show(self: LS) -> string { int32_to_string(self.v) } }\nfn l_mk(n: int32) -> LS { LS { v: n } }\nfn l_id[T](x: T) -> T { x }\n"
+    main_src = "package Main\nimport Lib\nfn main() { string_println(Lib::LT::show(Lib::l_id(Lib::l_mk(3)))) }\n"
+    base_ops = [{"op": "write", "path": "Lib/lib.gom", "text": lib_src}, {"op": "write", "path": "main.gom", "text": main_src}, {"op": "build", "pkg": "Lib", "inputs": ["Lib/lib.gom"]}]
+    (pr,) = vlib.run_harness("sep", [{"dir": os.path.join(vlib.BUILD, "tmp", "c04art0"), "ops": base_ops + [{"op": "build", "pkg": "Main", "inputs": ["main.gom"]}, {"op": "read", "path": "out/Lib.interface"}, {"op": "read", "path": "out/Lib.core"}, {"op": "read", "path": "out/Main.core"}]}])
+    arts = {"out/Lib.interface": pr["results"][-3].get("text"), "out/Lib.core": pr["results"][-2].get("text"), "out/Main.core": pr["results"][-1].get("text")}
+    art_stats = {"cases": 0, "rejected": 0, "accepted": 0}
+
+    def damage(text):
+        k = rng.random()
+        if k < 0.25:
+            return text[: rng.randint(0, len(text))]
+        if k < 0.35:
+            i = rng.randint(0, len(text))
+            return text[:i] + rng.choice(["}", "{", "[", "\"", ",", "null", "1e999", "\\u0000"]) + text[i:]
+        try:
+            j = json.loads(text)
+        except ValueError:
+            return text
+        # structural damage at a random node
+        nodes = []
+
+        def walk(x, path_):
+            nodes.append(path_)
+            if isinstance(x, dict):
+                for kk, vv in x.items():
+                    walk(vv, path_ + [kk])
+            elif isinstance(x, list):
+                for ii, vv in enumerate(x):
+                    walk(vv, path_ + [ii])
+
+        walk(j, [])
+        path_ = rng.choice(nodes)
+        if not path_:
+            return json.dumps(rng.choice([[], 1, "x", None, {}]))
+        parent = j
+        for step in path_[:-1]:
+            parent = parent[step]
+        last = path_[-1]
+        choice = rng.random()
+        if choice < 0.3:
+            if isinstance(parent, dict):
+                del parent[last]
+            else:
+                parent.pop(last)
+        elif choice < 0.8:
+            parent[last] = rng.choice([None, 0, -1, 18446744073709551615, "", "Lib", [], {}, True, [[]], {"TParam": {"name": "T"}}, "TInt32"])
+        else:
+            if isinstance(parent, list):
+                parent.append(copy.deepcopy(parent[last]))
+            else:
+                parent["extra_" + str(last)] = copy.deepcopy(parent[last])
+        return json.dumps(j)
+
+    art_cases = []
+    if all(arts.values()):
+        for i in range(60 if run.tier == "quick" else 1500):
+            which = rng.choice(sorted(arts))
+            bad = damage(arts[which])
+            ops = list(base_ops)
+            if which == "out/Main.core":
+                ops.append({"op": "build", "pkg": "Main", "inputs": ["main.gom"]})
+            ops.append({"op": "write", "path": which, "text": bad})
+            if which == "out/Lib.interface":
+                ops += [{"op": "check", "pkg": "Main", "inputs": ["main.gom"]}, {"op": "build", "pkg": "Main", "inputs": ["main.gom"]}]
+            elif which == "out/Lib.core":
+                ops.append({"op": "build", "pkg": "Main", "inputs": ["main.gom"]})
+            ops.append({"op": "link", "pkgs": ["Lib", "Main"]})
+            art_cases.append((which, bad, {"dir": os.path.join(vlib.BUILD, "tmp", "c04art%d" % (i + 1)), "ops": ops}))
+        ares = vlib.run_harness("sep", [c[2] for c in art_cases], shards=vlib.NCPU, timeout=1800)
+        for (which, bad, case), r in zip(art_cases, ares):
+            art_stats["cases"] += 1
+            after = r["results"][len(base_ops) :]
+            if any("panic" in x for x in after):
+                px = [x["panic"] for x in after if "panic" in x][0]
+                wits.append({"kind": "a damaged %s made check/build/link panic: %s" % (which, px[:200]), "artifact": which, "program": bad, "entry": "separate::{check_package,build_package,read_core,link_cores}"})
+            elif all(x.get("ok") for x in after):
+                art_stats["accepted"] += 1
+            else:
+                art_stats["rejected"] += 1
     # ---- known findings -------------------------------------------------------
     known_inputs = {}
     for k in run.known:
@@ -176,7 +258,7 @@ def check(run):
         "S3: %d multi-file projects (mutated dependency package, extra file in the root package, mutated entry) through the real command-line binary (run / check / build / link with a damaged core): no panic exit, no signal, no hang, a failure prints a message. distinct_nontrivial = distinct inputs"
         % (len(tins), 3 if run.tier == "quick" else 4, len(progs), n_cli)
     )
-    run.cov["correspondence"] = {"cli_results": cli_stats, "compile_results": stats, "texts": len(tins), "programs": len(progs)}
+    run.cov["correspondence"] = {"damaged_artifacts": art_stats, "cli_results": cli_stats, "compile_results": stats, "texts": len(tins), "programs": len(progs)}
     run.cov["proved_parts"] = ["multi-line string scanner never indexes out of bounds and never bumps mid-character (C12 multiline_scanner_safe)", "the match-compiler model reaches a panic site only through KPanic results that the first-match theorem's hypothesis names (C06)"]
     run.cov["open_obligations"] = ["termination and panic-freedom of the recursive-descent parser, AST lowering, typer, mono, lift, ANF and the Go backend are explored, not proved", "check/build/link with corrupted artifacts are exercised under C15"]
     run.assumptions = ["a hang is observed as no result within 8 s"]
